@@ -52,6 +52,8 @@ func checkC27(c *core.Ctx) {
 	ruleCompileDom(c)
 	ruleMachinePanics(c)
 	ruleNilOnError(c)
+	ruleResourceTableBound(c)
+	rulePrinterDrains(c)
 }
 
 func opConsts(c *core.Ctx) map[types.Object]bool {
@@ -434,6 +436,11 @@ func ruleMachinePanics(c *core.Ctx) {
 						c.Fail("PANIC/machine", key, pos(c, call), fmt.Sprintf("explicit panic reachable from a compile/run entry point (%s): scripts, variables and balances are untrusted input and must produce an error", it.via))
 					}
 				}
+			}
+			if f := astx.Callee(info, call); isPanickingBigCall(f, call, info) {
+				np++
+				sites++
+				c.Fail("PANIC/machine", fmt.Sprintf("%s:big-%s#%d", fk, f.Name(), np), pos(c, call), fmt.Sprintf("math/big.%s panics on a zero divisor and is reachable from a compile/run entry point (%s) with a divisor that is not a constant or a Rat's own denominator: a script, variable or metadata value such as 1/0 crashes instead of being rejected", f.Name(), it.via))
 			}
 			if f := astx.Callee(info, call); f != nil && f.Pkg() != nil && strings.HasPrefix(f.Pkg().Path(), load.Module) && !seen[f] {
 				work = append(work, item{f, it.via + " → " + f.Name()})
